@@ -276,6 +276,23 @@ theorem c11_copy_total (v : Val) (n : Nat) (hv : allHandled tables v = true) (hn
     (copy tables v n).1.erase = v.erase ∧ ∀ a ∈ mutAddrs tables (copy tables v n).1, a ∉ v.addrs :=
   copy_total tables schemaCopyOK_inst v n hv hn
 
+/-- every type a schema-typed value can contain has a `Copy` case (node types, static types of pointer / slice / map
+fields, element types of slices / maps) -/
+theorem typesHandled_inst : typesHandled tables = true := by decide +kernel
+
+/-- `schema_typed_allHandled`: a value that is well-typed against the extracted schema (each position holds nil, a
+scalar where a scalar is declared, a node of exactly the static type, or — in interface positions — a node of any
+schema node type; no typed-nil pointer) is built from handled types only -/
+theorem schema_typed_allHandled (v : Val) (h : wellTyped tables v = true) : allHandled tables v = true :=
+  Dawgs.C11.schema_typed_allHandled tables typesHandled_inst v h
+
+/-- the copy half for every well-typed model: the only hypothesis left is "well-typed against the schema, no typed
+nil" — what Go's type system gives for every parser- or builder-produced model, and what the harness checks on
+every real model by reflection (`welltyped=1`, compared with `wellTyped` computed here on the same value) -/
+theorem c11_copy_welltyped (v : Val) (n : Nat) (hv : wellTyped tables v = true) (hn : ∀ a ∈ v.addrs, a < n) :
+    (copy tables v n).1.erase = v.erase ∧ ∀ a ∈ mutAddrs tables (copy tables v n).1, a ∉ v.addrs :=
+  c11_copy_total v n (schema_typed_allHandled v hv) hn
+
 /-! ### The old copy table (before `fix: errors: Copy(s.errors)` + `case []error` in Copy)
 
 FIXED FINDING C11:cypher.Copy:aliasing:<T>.errors — `copy()` of SinglePartQuery, UpdatingClause, Create and
@@ -377,7 +394,7 @@ def sample : Val :=
     [.node .obj 2 (tyOf "*cypher.SingleQuery") []
       [.node .obj 3 (tyOf "*cypher.SinglePartQuery") [] [.nil, .nil, .nil, .nil], .nil]]
 
-example : copyPanics tables sample = false ∧ allHandled tables sample = true ∧ (∀ a ∈ sample.addrs, a < 10) := by decide +kernel
+example : copyPanics tables sample = false ∧ allHandled tables sample = true ∧ wellTyped tables sample = true ∧ (∀ a ∈ sample.addrs, a < 10) := by decide +kernel
 example : (treeOf tables tables.structural sample).good = true ∧
     (treeOf tables tables.structural sample).labels.length = 3 := by decide +kernel
 /-- a consuming, then cancelling visitor on a small tree: hypotheses of the index-form theorems are satisfiable -/
